@@ -38,6 +38,9 @@ def run(ck):
     ck.rule("R1", "each range handler applies the interval operation of its own operator", floor=10)
     ck.rule("R2", "unknown inputs and unmodelled operators yield the full range; conditionals the union of their arms", floor=6)
     _structural_rules(ck)
+    ck.rule("R5", "the interval primitives the range operations are built on treat bounds as closed (shared with C26-R7)", floor=1)
+    from rules.c26 import closed_bound_rules
+    closed_bound_rules(ck, "R5")
 
     table = em.const("_op_range_handler")
     ck.need(isinstance(table, ast.Dict), "_op_range_handler is not a dict literal")
